@@ -419,7 +419,8 @@ def op_merge(w, ev, slot):
     # the iterable form is documented for metadata-free tables only
     listform = bool(ev.get('list', 0)) and fast_ok and (all_free or both_none)
     if listform and not both_none and any(
-            slot.real.metadata(axis=a) is not None for a in AXNAME):
+            t.real.metadata(axis=a) is not None
+            for t in [slot] + plist for a in AXNAME):
         # "every entry empty" (reachable from partial metadata) is observably
         # the same as no metadata, but the iterable form is only documented
         # for tables without metadata
@@ -436,6 +437,13 @@ def op_merge(w, ev, slot):
     has_md = [[t.real.metadata(axis=a) is not None for a in AXNAME]
               for t in [slot] + partners[:1]]
     exp = _merge_model(refs, modes, fams, has_md)
+    if exp is not None and uu and not any(
+            t.real.metadata(axis=a) is not None
+            for t in [slot] + partners for a in AXNAME):
+        # metadata-free union: the documented fast path, which promises the
+        # same values and id sets as the general path and consults no
+        # metadata function (there is no metadata to merge)
+        exp.md = [None, None]
     if exp is None:
         expected = ModelError('empty intersection')
     else:
